@@ -437,6 +437,9 @@ impl Allocator for Arena {
     #[cfg(feature = "tracing")]
     tracing::debug!("discard {size} bytes");
 
+    // the header of a read-only ARENA lives in a read-only mapping.
+    assert!(!self.ro, "ARENA is read-only");
+
     self.header().discarded.fetch_add(size, Ordering::Release);
   }
 
@@ -452,6 +455,9 @@ impl Allocator for Arena {
 
   #[inline]
   fn set_minimum_segment_size(&self, size: u32) {
+    // the header of a read-only ARENA lives in a read-only mapping.
+    assert!(!self.ro, "ARENA is read-only");
+
     self
       .header()
       .min_segment_size
